@@ -98,6 +98,12 @@ def run(rep):
         want = rep.get("exc")
         ok = raised is not None and any(c.__name__ == want for c in type(raised).__mro__)
         return ok, "\n".join(msg + [f"required: no {want}"])
+    if kind == "frame" and ".frame." in str(rep.get("obligation", "")):
+        fld = str(rep["obligation"]).split(".frame.")[-1].split("__")[0]
+        if hasattr(o, fld) and hasattr(old["self"], fld):
+            same = getattr(o, fld) == getattr(old["self"], fld)
+            return (not same), "\n".join(msg + [f"required: self.{fld} unchanged; before {getattr(old['self'], fld)!r}, "
+                                                f"after {getattr(o, fld)!r}"])
     if not isinstance(clause, str):
         return False, "\n".join(msg + ["clause not replayable"])
 
